@@ -548,3 +548,37 @@ Theorem C07_empty_physical_example :
   shape bool t = [3] /\ map (fun i => dspec t [i]) [0; 1; 2] = [true; true; true].
 Proof. exact empty_in_sum_example. Qed.
 Print Assumptions C07_empty_physical_example.
+
+(** * unify respects the bindings it is handed (einsum's loop unifies every later attachment of an index under the
+    substitution built so far): an axis that is already bound keeps its binding, also when the product loop has to
+    split it against a smaller factor of another factorisation of the same index (12 = 2*6 against 4*3). *)
+Require Import Fggs.Proofs.Axis_unify Fggs.Proofs.Axis_unify_keeps.
+Theorem C07_unify_keeps_bindings : forall fuel e f st b st' k x,
+  pos_sizes e = true -> pos_sizes f = true -> pos_subst (us_subst st) = true ->
+  unify fuel e f st = Ok (b, st') ->
+  assoc k (us_subst st) = Some x -> assoc k (us_subst st') = Some x.
+Proof. exact unify_keeps_bindings. Qed.
+Print Assumptions C07_unify_keeps_bindings.
+
+Theorem C07_unify_loop_keeps_bindings : forall fuel esr fsr st b st' k x,
+  forallb pos_sizes esr = true -> forallb pos_sizes fsr = true -> pos_subst (us_subst st) = true ->
+  unify_loop fuel esr fsr st = Ok (b, st') ->
+  assoc k (us_subst st) = Some x -> assoc k (us_subst st') = Some x.
+Proof. exact unify_loop_keeps_bindings. Qed.
+Print Assumptions C07_unify_loop_keeps_bindings.
+
+Theorem C07_unify_list_keeps_bindings : forall fuel es fs st b st' k x,
+  forallb pos_sizes es = true -> forallb pos_sizes fs = true -> pos_subst (us_subst st) = true ->
+  unify_list fuel es fs st = Ok (b, st') ->
+  assoc k (us_subst st) = Some x -> assoc k (us_subst st') = Some x.
+Proof. exact unify_list_keeps_bindings. Qed.
+Print Assumptions C07_unify_list_keeps_bindings.
+
+(** Q(6), bound to U(2)*V(3), is the last factor of P(2)*Q(6) and meets R(4)*S(3): it is split through its binding *)
+Theorem C07_bound_then_split_example :
+  exists st', unify 40 (Prod [Phys 1 2; Phys 2 6]) (Prod [Phys 5 4; Phys 6 3]) bts_st = Ok (true, st') /\
+    assoc 2%positive (us_subst st') = Some (Prod [Phys 3 2; Phys 4 3]) /\
+    us_warn st' = false /\
+    assoc 4%positive (us_subst st') = Some (Phys 6 3).
+Proof. exact bound_then_split. Qed.
+Print Assumptions C07_bound_then_split_example.
